@@ -1,7 +1,7 @@
 (* Props/C18.v — spans: the algebra every parent span is computed with, and positions. *)
 From Coq Require Import ZArith List Bool.
 From Rscel Require Import Base.Prims Model.Value Model.Lexer Model.Ast Model.Parser.
-From Rscel Require Import Proofs.Literals Proofs.Spans Proofs.ParseSpans.
+From Rscel Require Import Proofs.Literals Proofs.Spans Proofs.ParseSpans Proofs.LexFwd Proofs.ParseBounds Proofs.ParseFwd.
 Import Coq.Strings.String.StringSyntax.
 Import ListNotations.
 Open Scope Z_scope.
@@ -76,3 +76,39 @@ Proof. intros f r c t e H. exact H. Qed.
 Example C18_spans_nest_somewhere :
   match parse_program 40 #"a + b * -c.d[0] ? {'k': f(x)} : match y { case 1: [2] }" with POk _ _ => true | _ => false end = true.
 Proof. vm_compute. reflexivity. Qed.
+
+(** * Positions.  The scanner only moves forward, so the tokenizer reports tokens with well-ordered spans that
+    increase and do not overlap, all inside the source ([chain]: each span starts at or after the end of the
+    one before and the last ends at or before the position reached, which is the position of a prefix of the
+    source text). *)
+Theorem C18_tokens_in_order : forall src toks s', lex src = LOk toks s' ->
+  chain (mkLoc 0 0) toks (sc_loc s') /\ exists pre, src = pre ++ sc_rest s' /\ sc_loc s' = loc_after (mkLoc 0 0) pre.
+Proof. exact tokens_inside_source. Qed.
+Print Assumptions C18_tokens_in_order.
+
+(** ... and through the parser, for every tree it returns and at every depth ([br]): a bracketed node -
+    parentheses, list, map, call, index, match - contains its contents; the elements of a list, the entries of
+    a map (key before value), the arguments of a call and the postfix operators of a chain follow one another
+    without overlap, as do the operands of every binary operator and the three parts of a conditional; and the
+    whole tree lies between the position where parsing started and the position it reached. *)
+Theorem C18_parser_positions : forall fuel depth t e t', tzinv t -> p_expr_at fuel depth t = POk e t' ->
+  st t t' /\ nd t (expr_range e) t' /\ br fuel e.
+Proof. exact parser_positions. Qed.
+Print Assumptions C18_parser_positions.
+
+(** for a whole program: the properties above hold of its tree, its span starts at or after the beginning of the
+    source and ends at or before the position the parser reached, and that position is one of the source *)
+Theorem C18_program_positions : forall fuel src e t, parse_program fuel src = POk e t ->
+  br fuel e /\ bnd (mkLoc 0 0) (expr_range e) (reach t) /\
+  exists pre, src = pre ++ sc_rest (tz_scan t) /\ reach t = loc_after (mkLoc 0 0) pre.
+Proof.
+  intros fuel src e t H. split; [exact (proj1 (program_positions _ _ _ _ H))|exact (program_inside_source _ _ _ _ H)].
+Qed.
+Print Assumptions C18_program_positions.
+
+(** what [br] says at a parenthesised primary, a list and a binary operator, spelled out *)
+Example C18_positions_unfolded : forall rec r e es l op b,
+  (br_primary rec (PrParens r e) -> within (expr_range e) r) /\
+  (br_primary rec (PrList r es) -> Forall (fun x => within (expr_range x) r /\ rec x) es /\ ordered (map expr_range es)) /\
+  (br_mult rec (MulBin r l op b) -> before (mult_range l) (unary_range b)).
+Proof. intros rec r e es l op b. split; [intros H; exact (proj1 H)|]. split; [intros H; exact H|intros H; exact (proj1 H)]. Qed.
